@@ -46,7 +46,7 @@ package ntlm
 //@   requires[C10] wf: c != nil && r != nil && c.h != nil && c.h.Database != nil && dyn(c.h.Database, ptr(database.Config)) != nil
 //@   requires !r.Authenticated
 //@   requires[C14] freshSession: sessOK(c)
-//@   assigns c.session, r.NtlmMessage, r.Authenticated, r.Username, #uiSession, #uiUser, #uiPass, #pamSession, #pamMsg, #pamOK, #negSession, #chalSession, region(map:Iface:ghost.pamUsed)
+//@   assigns c.session, r.NtlmMessage, r.Authenticated, r.Username, #uiSession, #uiUser, #uiPass, #pamSession, #pamMsg, #pamOK, #negSession, #chalSession, #strictOK, #strictOf, region(map:Iface:ghost.pamUsed)
 //@   ensures[C14] needsSession: r.Authenticated ==> old(c.session) != nil && #pamOK && #pamSession == old(c.session) && #uiSession == old(c.session)
 //@   ensures[C14] oneResponsePerSession: sessOK(c) && (c.session == nil || c.session == old(c.session) || fresh(c.session))
 //@   ensures[C14] otherSessions: forall s iface :: s != old(c.session) ==> pamUsed(s) == old(pamUsed(s))
